@@ -555,6 +555,15 @@ _C04_PICKS = (_pick("C17", {"c17_header_parse_total", "c17_len_parse_total", "c1
                               "c05_s2k_argon2_trunc", "c05_mpi_bits16385", "c05_mpi_bits17_trunc", "c08_usage_255"},
                       {"c05_s2k_other_255": "thorough"})
               + _pick("C10", {"c10_b64reader_5_4", "c10_b64reader_8_4"}))
+SKESK_F = ["packet::SymKeyEncryptedSessionKey::decrypt (V4 arm: plausibility of the decrypted session key)"]
+PROPS["C04"]["harnesses"] = PROPS["C04"]["harnesses"] + [
+    H("c04_skesk_v4_plain_%d" % n, "c04_skesk", tier, 600,
+      "v4 SKESK (struct literal) whose encrypted-key field holds %d attacker-chosen octets, public decrypt() with a 16-octet key, CFB = identity: Ok/Err, no panic; Ok only if the first octet names a cipher whose key size is the remaining length" % n,
+      SKESK_F, "N=%d symbolic octets" % n)
+    for n, tier in [(0, "quick"), (1, "quick"), (2, "thorough"), (17, "quick")]
+]
+PROPS["C04"]["inject"] = PROPS["C04"]["inject"] + [("src/packet/sym_key_encrypted_session_key.rs", "c04_skesk")]
+PROPS["C04"]["assumptions"] = PROPS["C04"]["assumptions"] + ["c04_skesk_*: SymmetricKeyAlgorithm::decrypt_with_iv_regular is a no-op (the decrypted session-key plaintext is the attacker's octets)"]
 PROPS["C04"]["harnesses"] = PROPS["C04"]["harnesses"] + [h for h in _C04_PICKS if h["name"] not in {x["name"] for x in PROPS["C04"]["harnesses"]}]
 PROPS["C04"]["inject"] = PROPS["C04"]["inject"] + [i for i in PROPS["C17"]["inject"] + PROPS["C05"]["inject"] + PROPS["C10"]["inject"]
                                                      if i not in PROPS["C04"]["inject"]]
